@@ -29,7 +29,7 @@ REQUIRED = ["contract:Assertion.mvrs_to_data", "contract:Assertion.set_p_values"
 ASSUMPTIONS = ["sample_threshold has been set by a draw (n_c >= 1) before mvrs_to_data is called under style",
                "the bound clause is asserted for every margin the simulator produces (also non-positive ones: the data are "
                "still inside [0,u])"]
-N_CASES = {"quick": 4800, "thorough": 120000}
+N_CASES = {"quick": 19200, "thorough": 153600}
 
 
 def _aud(self):
